@@ -50,6 +50,7 @@
 typedef struct thread_pool_thread_msg_queue_s { /* thread pool thread info */
 	tp_udata_t	udata;
 	int		fd[2]; /* Queue specific. */
+	volatile size_t	senders; /* tpt_msg_send() calls between the running test and the write(). */
 } tpt_msg_queue_t;
 
 
@@ -272,6 +273,28 @@ tpt_msg_queue_create(tpt_p tpt, const uint32_t flags) { /* Init threads message 
 	return (msg_queue);
 }
 
+/* Called by a thread that has left its event loop (and by it for the pool
+ * virtual thread): messages that tpt_msg_send() accepted while the thread
+ * was marked as running are still in the queue - after the stop message,
+ * or not read yet at all. Deliver them, they were reported as sent. */
+void
+tpt_msg_queue_drain(tpt_p tpt) {
+	tpt_msg_queue_p msg_queue = tpt_get_msg_queue(tpt);
+	tp_event_t ev;
+
+	if (NULL == msg_queue)
+		return;
+	/* New senders see that the thread does not run any more, wait for
+	 * those that tested before and may still be about to write. */
+	__atomic_thread_fence(__ATOMIC_SEQ_CST);
+	while (0 != __atomic_load_n(&msg_queue->senders, __ATOMIC_ACQUIRE)) {
+		sched_yield();
+	}
+	memset(&ev, 0x00, sizeof(ev));
+	ev.event = TP_EV_READ;
+	tpt_msg_recv_and_process(&ev, &msg_queue->udata);
+}
+
 void
 tpt_msg_queue_destroy(tpt_msg_queue_p msg_queue) {
 
@@ -304,7 +327,13 @@ tpt_msg_send(tpt_p dst, tpt_p src, uint32_t flags,
 			return (0);
 		}
 	}
+	/* Announce the sender before the running test: a thread that stops
+	 * waits for announced senders and then reads what they have queued,
+	 * see tpt_msg_queue_drain(). */
+	__atomic_add_fetch(&msg_queue->senders, 1, __ATOMIC_SEQ_CST);
+	__atomic_thread_fence(__ATOMIC_SEQ_CST);
 	if (0 == tpt_is_running(dst)) {
+		__atomic_sub_fetch(&msg_queue->senders, 1, __ATOMIC_RELEASE);
 		if (0 == (TP_MSG_F_FORCE & flags))
 			return (EHOSTDOWN);
 		msg_cb(dst, udata);
@@ -316,8 +345,11 @@ tpt_msg_send(tpt_p dst, tpt_p src, uint32_t flags,
 	msg.udata = udata;
 	TPT_MSG_PKT_CHK_SUM_SET(&msg);
 	LCB_VERIF_POINT(LCB_VP_MSG_SEND_BEFORE_WRITE);
-	if (sizeof(msg) == write(msg_queue->fd[1], &msg, sizeof(msg)))
+	if (sizeof(msg) == write(msg_queue->fd[1], &msg, sizeof(msg))) {
+		__atomic_sub_fetch(&msg_queue->senders, 1, __ATOMIC_RELEASE);
 		return (0);
+	}
+	__atomic_sub_fetch(&msg_queue->senders, 1, __ATOMIC_RELEASE);
 	/* Error. */
 	if (0 != (TP_MSG_F_FAIL_DIRECT & flags)) {
 		msg_cb(dst, udata);
